@@ -1,6 +1,8 @@
 package main
 
 import (
+	"log"
+	"runtime"
 	"crypto/sha256"
 	"encoding/hex"
 	"encoding/json"
@@ -370,3 +372,29 @@ func (r *Run) Finish(caseType, mismatchFn string) error {
 	}
 	return os.WriteFile(filepath.Join(r.OutDir, "meta.json"), data, 0o644)
 }
+
+// ---------- log.Fatal trap (all properties) ----------
+// kustomize calls log.Fatal* in a few places (= write to the standard logger, then os.Exit(1)), which would kill
+// the harness process. The standard logger's writer is replaced by one that panics when it is called from
+// log.Fatal*: the panic unwinds before os.Exit is reached and is classified by `protect` as CPanic with a message
+// starting "log.Fatal:". Ordinary log output (warnings) is discarded. Properties that need finer handling install
+// their own trap on top (C12, C18).
+type globalFatalTrap struct{}
+
+func (globalFatalTrap) Write(p []byte) (int, error) {
+	pcs := make([]uintptr, 16)
+	n := runtime.Callers(2, pcs)
+	frames := runtime.CallersFrames(pcs[:n])
+	for {
+		f, more := frames.Next()
+		if strings.HasPrefix(f.Function, "log.Fatal") || strings.HasPrefix(f.Function, "log.(*Logger).Fatal") {
+			panic("log.Fatal: " + strings.TrimSpace(string(p)))
+		}
+		if !more {
+			break
+		}
+	}
+	return len(p), nil
+}
+
+func installGlobalFatalTrap() { log.SetOutput(globalFatalTrap{}) }
